@@ -91,6 +91,8 @@ def configs(tier):
                     for it in (1, 2) if q else (1, 2, 3):
                         if q and (ns == 3 and (it == 2 or R == 2) and len(x) > 1):
                             continue
+                        if x == (2,) and y == () and (R, it) != (1, 1):
+                            continue  # order-2 X with scalar targets: fit raises (see report); one witness per sample count
                         add("cp", ns=ns, x=x, y=y, R=R, it=it, npred=1 if ns == 2 else 2)
     # TuckerRegressor: scalar targets
     for ns in (2, 3):
@@ -98,19 +100,42 @@ def configs(tier):
             for it in (1, 2) if q else (1, 2, 3):
                 if q and ns == 3 and it == 2 and len(x) > 1:
                     continue
+                if x == (2,) and (ranks, it) != ((1,), 1):
+                    continue  # order-2 X: fit raises (see report)
                 add("tucker", ns=ns, x=x, ranks=ranks, it=it, npred=1 if ns == 2 else 2)
-    # CP_PLSR
-    for x in [(2, 2), (2,)] + ([] if q else [(2, 2, 2), (3, 2)]):
+    # CP_PLSR (3 samples; ny == 0: vector-valued Y).  Two components with permuted samples is left out: the second
+    # component's deflated terms are not brought to a common syntactic form by the congruence argument (undecided)
+    def plsr(x, ny, nc, it, inv):
+        kw = dict(perm=(2, 0, 1)) if inv == "perm" else {}
+        add("plsr", ns=3, x=x, ny=ny, nc=nc, it=it, inv=inv, npred=2, vacuity=False, mode="fork", cost=(10 if nc == 2 or it == 2 else 1) * (2 if len(x) > 1 else 1), **kw)
+
+    invs = ("none", "shiftX", "shiftY", "perm")
+    for x in [(2, 2), (2,)]:
         for ny in (2, 1, 0):
-            for nc in (1, 2):
-                for it in (1, 2):
-                    if q and it == 2 and (nc == 2 or ny == 0):
-                        continue
-                    for inv in ("none", "shiftX", "shiftY", "shiftXY", "perm"):
-                        if q and inv == "shiftXY":
-                            continue
-                        kw = dict(perm=(2, 0, 1)) if inv == "perm" else {}
-                        add("plsr", ns=3, x=x, ny=ny, nc=nc, it=it, inv=inv, npred=2, vacuity=False, mode="fork", **kw)
+            for inv in invs:
+                plsr(x, ny, 1, 1, inv)
+    for ny in (2, 1):
+        for inv in invs:
+            plsr((2,), ny, 1, 2, inv)
+    for inv in ("shiftX", "shiftY", "perm"):
+        plsr((2, 2), 2, 1, 2, inv)
+    plsr((2,), 1, 2, 1, "none")
+    plsr((2,), 0, 2, 1, "none")
+    plsr((2,), 2, 2, 1, "shiftX")
+    if not q:
+        for x in [(2, 2, 2), (3, 2)]:
+            for ny in (2, 1):
+                for inv in invs + ("shiftXY",):
+                    plsr(x, ny, 1, 1, inv)
+        for x in [(2, 2), (2,)]:
+            for ny in (2, 1, 0):
+                plsr(x, ny, 1, 1, "shiftXY")
+                for inv in ("none", "shiftX", "shiftY", "shiftXY"):
+                    if not (x == (2,) and (ny, inv) in ((1, "none"), (0, "none"), (2, "shiftX"))):
+                        plsr(x, ny, 2, 1, inv)
+                for inv in invs:
+                    if not ((x == (2,) and ny in (2, 1)) or (x == (2, 2) and ny == 2 and inv != "none")):
+                        plsr(x, ny, 1, 2, inv)
     return out
 
 
@@ -229,7 +254,33 @@ class Congruence:
             return orig(arg, degree=degree, nn=nn, sos=sos)
 
         c.root = root
+        # same accelerator for the stub-argument lookup (functional SVD model): congruent arguments are the same argument
+        from vt import backend
+
+        orig_same_array = backend._same_array
+
+        def same_array(a, b):
+            a = np.asarray(a, dtype=object)
+            b = np.asarray(b, dtype=object)
+            if a.shape != b.shape:
+                return False
+            for x, y in zip(a.ravel(), b.ravel()):
+                if cong.same(x, y):
+                    continue
+                if not c.identical(sym.term(x), sym.term(y)):
+                    return False
+            return True
+
+        backend._same_array = same_array
+        self._restore = (orig, orig_same_array)
         return orig
+
+    def uninstall(self):
+        from vt import backend, sym
+
+        orig, orig_same_array = self._restore
+        sym.CTX.root = orig
+        backend._same_array = orig_same_array
 
     def same(self, x, y):
         import z3
@@ -620,9 +671,7 @@ def _h_plsr(E, cfg):
         return
     finally:
         if E.symbolic:
-            from vt import sym
-
-            sym.CTX.root = saved_root
+            cong.uninstall()
     XF2 = [_arr(E, f) for f in est2.X_factors]
     YF2 = [_arr(E, f) for f in est2.Y_factors]
     for m in range(1, len(XF)):
